@@ -23,14 +23,12 @@ CLSNAME = {'const': 'Constant', 'op': 'Operation', 'prior': 'Prior', 'sim': 'Sim
 
 
 def strat(tier):
-    add = st.tuples(st.just('add'), st.sampled_from(KINDS), st.lists(st.integers(0, 99), max_size=3), st.integers(0, 9), st.integers(0, 9))
-    become = st.tuples(st.just('become'), st.sampled_from(['op', 'prior', 'sim', 'summary', 'const']), st.lists(st.integers(0, 99), max_size=3),
-                       st.integers(0, 99), st.integers(0, 9))
-    remove = st.tuples(st.just('remove'), st.integers(0, 99))
-    copy = st.tuples(st.just('copy'), st.lists(st.tuples(st.sampled_from(['add', 'remove', 'params', 'observed', 'uses_meta', 'become', 'del-observed']),
-                                                         st.integers(0, 99)), min_size=0, max_size=4))
-    save = st.tuples(st.just('save-load'), st.just(0))
-    op = st.one_of(add, add, add, add, become, become, remove, copy, copy, save)
+    # one uniform op shape (kind, node kind, int list, int, int, copy mutations) so that the op kinds can be weighted:
+    # st.one_of ignores repeated alternatives
+    kinds = ['add'] * 7 + ['become'] * 2 + ['become-existing'] * 2 + ['rewire'] * 2 + ['remove'] * 2 + ['copy'] * 2 + ['save-load']
+    sub = st.tuples(st.sampled_from(['add', 'remove', 'params', 'observed', 'uses_meta', 'become', 'del-observed']), st.integers(0, 99))
+    op = st.tuples(st.sampled_from(kinds), st.sampled_from(KINDS), st.lists(st.integers(0, 99), max_size=3), st.integers(0, 99),
+                   st.integers(0, 9), st.lists(sub, min_size=0, max_size=4))
     return st.fixed_dictionaries({'ops': st.lists(op, min_size=3, max_size=25 if tier == 'thorough' else 18), 'seed': st.integers(0, 1000)})
 
 
@@ -182,6 +180,25 @@ def run_case(case):
                 r.observed[tgt] = r.observed.pop(new)
             return tgt
 
+        def do_become_existing(model, r, tsel, rsel):
+            """target.become(an EXISTING childless node that has been in the graph for a while)."""
+            names = list(r.nodes)
+            if len(names) < 2:
+                return None
+            tgt = names[tsel % len(names)]
+            forbidden = r.descendants(tgt) | {tgt}
+            cands = [n for n in names if n not in forbidden and not r.children(n)]
+            if not cands:
+                return None
+            rep = cands[rsel % len(cands)]
+            model[tgt].become(model[rep])
+            nd = r.nodes.pop(rep)
+            r.nodes[tgt] = nd
+            r.observed.pop(tgt, None)
+            if rep in r.observed:
+                r.observed[tgt] = r.observed.pop(rep)
+            return (tgt, rep)
+
         def do_remove(model, r, sel):
             leaves = [n for n in r.nodes if not r.children(n)]
             if not leaves:
@@ -197,20 +214,50 @@ def run_case(case):
             kind = op[0]
             with must_not_raise(P, 'step %d %r; %s' % (oi, op, ctx)):
                 if kind == 'add':
-                    nm = new_node(m, ref, op[1], op[2], op[3], op[4])
+                    nm = new_node(m, ref, op[1], op[2], op[3] % 10, op[4])
                     hist.append(('add', nm, ref.nodes[nm]['kind'], ref.nodes[nm]['pos']))
                 elif kind == 'become':
-                    t = do_become(m, ref, op[1], op[2], op[3], op[4])
-                    hist.append(('become', t, op[1]))
+                    bk = op[1] if op[1] in ('op', 'prior', 'sim', 'summary', 'const') else 'op'
+                    t = do_become(m, ref, bk, op[2], op[3], op[4])
+                    hist.append(('become', t, bk))
                     edited = edited or t is not None
+                elif kind == 'become-existing':
+                    t = do_become_existing(m, ref, op[3], op[2][0] if op[2] else 0)
+                    hist.append(('become-existing', t))
+                    edited = edited or t is not None
+                elif kind == 'rewire':
+                    hist.append(('rewire',))
+                    def _multi():
+                        return [n for n in ref.nodes if not ref.children(n) and sum(1 for p_ in ref.nodes[n]['pos'] if p_[0] == 'node') >= 2]
+                    if not _multi() and len(ref.nodes) >= 2:
+                        nm = new_node(m, ref, 'op', [op[3], op[3] + 1 + op[4]], 9, 9)      # make one: an operation of two existing nodes
+                        hist.append(('add', nm, 'op', ref.nodes[nm]['pos']))
+                    multi = _multi()
+                    if multi:
+                        rep = multi[op[3] % len(multi)]
+                        pars = [p_[1] for p_ in ref.nodes[rep]['pos'] if p_[0] == 'node']
+                        par = pars[op[4] % (len(pars) - 1)]                      # a non-last parent
+                        names_ = list(ref.nodes)
+                        t1 = do_become(m, ref, 'prior', [], names_.index(par), 9)
+                        hist.append(('become', t1, 'prior'))
+                        check(m, ref, 'after %r' % (hist[-1],), 'history %r' % (hist,))
+                        others = [n for n in ref.nodes if n != rep and rep not in ref.descendants(n)]
+                        if others:
+                            tgt = others[(op[2][0] if op[2] else 0) % len(others)]
+                            names_ = list(ref.nodes)
+                            cands = [n for n in names_ if n not in (ref.descendants(tgt) | {tgt}) and not ref.children(n)]
+                            t2 = do_become_existing(m, ref, names_.index(tgt), cands.index(rep))
+                            hist.append(('become-existing', t2))
+                            labels.append('rewire-executed')
+                        edited = True
                 elif kind == 'remove':
-                    t = do_remove(m, ref, op[1])
+                    t = do_remove(m, ref, op[3])
                     hist.append(('remove', t))
                     edited = edited or t is not None
-            if kind in ('add', 'become', 'remove'):
+            if kind in ('add', 'become', 'become-existing', 'rewire', 'remove'):
                 check(m, ref, 'after %r' % (hist[-1],), 'history %r' % (hist,))
             elif kind == 'copy':
-                hist.append(('copy', op[1]))
+                hist.append(('copy', op[5]))
                 ctx = 'history %r' % (hist,)
                 before = (structure(m), m.parameter_names, dict(m.observed), seeded_output(m, case['seed']),
                           {n: m[n].uses_meta for n in m.nodes if not n.startswith('_')})
@@ -222,7 +269,7 @@ def run_case(case):
                 check(c, cref, 'fresh copy', ctx)
                 if seeded_output(c, case['seed']) != before[3]:
                     raise Violation('C14:copy-generates-differently', 'a fresh copy generates different seeded outputs than the original; %s' % ctx)
-                for sub, sel in op[1]:
+                for sub, sel in op[5]:
                     names = sorted(cref.nodes)
                     with must_not_raise(P, 'mutating the copy (%s); %s' % (sub, ctx)):
                         if sub == 'add':
@@ -276,7 +323,7 @@ CHECK = Check(
     P, 'exploration',
     rule=('Hypothesis-generated histories of 1-18 (thorough 25) steps: add Constant/Operation/Prior/Simulator/Summary/Discrepancy with existing '
           'nodes and raw constants as parents (raw constants create private nodes), become(node, fresh replacement whose parents are '
-          'non-descendants, possibly carrying observed data), remove a childless node, copy() followed by 0-4 mutations of the copy (add, '
+          'non-descendants, possibly carrying observed data, or an existing childless node that is not a descendant), remove a childless node, copy() followed by 0-4 mutations of the copy (add, '
           'remove, become, parameter_names=, observed[...]=, del observed, uses_meta=), save()+load(). Indices are resolved modulo the '
           'current state so every list is executable. Non-trivial = a history with at least one become/remove AND a copy that is mutated.'),
     parts=[Part('histories', run_case, strategy=strat, examples={'quick': 500, 'thorough': 24000})],
